@@ -158,6 +158,30 @@ def tokenStream (argv : List Word) : String :=
   | .throw e => s!"throw {e.name} after"
   | .oob w => s!"oob {w}"
 
+/-- for every element of `for (ai = begin(); ai != end(); ++ai)`: `ai.argsAsString( true)` and
+    `ai.argsAsString( false)` (the latter reads through `isSingleArg()`) -/
+def restStream (argv : List Word) : String :=
+  let showR (r : Res Word) : String :=
+    match r with
+    | .ok w => wordOut w
+    | .throw e => "!" ++ e.name
+    | .oob w => "oob:" ++ w
+  let rec go (fuel : Nat) (it : It) (acc : String) : String :=
+    match fuel with
+    | 0 => "oob fuel" ++ acc
+    | fuel + 1 =>
+      if it.atEnd then "ok" ++ acc
+      else
+        let acc := acc ++ s!" T={showR (it.argsAsString true)} F={showR (it.argsAsString false)}"
+        match it.step with
+        | .ok it' => go fuel it' acc
+        | .throw e => s!"throw {e.name} after{acc}"
+        | .oob w => s!"oob {w} after{acc}"
+  match It.begin argv with
+  | .ok it => go (totalChars argv) it ""
+  | .throw e => s!"throw {e.name} after"
+  | .oob w => s!"oob {w}"
+
 /-- resolve the keys of a handler constraint as `Handler::validArguments` does (simplified: every
     token must designate a defined argument, no argument twice); for a value constraint
     (`validValueArguments`) also: every argument has the destination type of the first one
@@ -232,6 +256,10 @@ def step (s : St) (line : String) : St × String :=
   | "pa" :: "tokens" :: ws =>
     match ws.mapM word with
     | some ws => (s, tokenStream (s.prog :: ws))
+    | none => (s, "bad-op")
+  | "pa" :: "rest" :: ws =>
+    match ws.mapM word with
+    | some ws => (s, restStream (s.prog :: ws))
     | none => (s, "bad-op")
   | "pa" :: "eval" :: rest =>
     match s.cfg with
